@@ -14,6 +14,7 @@ PRELUDE = r'''
 int vs_exc; char vs_dummy_char; unsigned char vs_dummy_byte; bool g_hit_end;
 size_t g_k;                       /* ghost: the sample position */
 size_t g_m;                       /* ghost: a second, independent sample position (for statements about the position a search returned) */
+struct vs_spair { struct vs_str first, second; };      /* std::pair<std::string, std::string> */
 size_t g_find_r;                   /* ghost: what find_first_of / find_last_of returned */
 #define VS_NPOS ((size_t)-1)
 /* std::string("literal") */
@@ -35,6 +36,17 @@ static inline struct vs_str vs_str_from_range(const char *first, const char *las
     r.data[r.size] = 0;
     return r;
 }
+/* s.substr(pos, n) / s.substr(pos): out_of_range beyond the end, else the piece (stated at the sample position) */
+static inline struct vs_str vs_str_substr(const struct vs_str *s, size_t pos, size_t n)
+{
+    struct vs_str r; r.size = 0; r.data = (char *)"";
+    if (pos > s->size) { vs_exc = VS_EXC_OUT_OF_RANGE; return r; }
+    r.size = n < s->size - pos ? n : s->size - pos; r.data = malloc(r.size + 1); __CPROVER_assume(r.data != 0);
+    if (g_k < r.size) r.data[g_k] = s->data[pos + g_k];
+    r.data[r.size] = 0;
+    return r;
+}
+static inline struct vs_str vs_str_substr1(const struct vs_str *s, size_t pos) { return vs_str_substr(s, pos, (size_t)-1); }
 /* a + b */
 static inline struct vs_str vs_str_concat(const struct vs_str *a, const struct vs_str *b)
 {
@@ -107,7 +119,7 @@ static inline struct vs_str vs_encode_string(const struct vs_str *s)
     && (a)->value_.data[4] == 'c' && (a)->value_.data[5] == ' ')
 #define AUTH_PRE(a) (FRESH(a, sizeof(*(a))) && (a)->value_.size <= STR_MAX && FRESH((a)->value_.data, (a)->value_.size + 1) && (a)->value_.data[(a)->value_.size] == 0)
 '''
-TYPES = {'std::string': 'struct vs_str', 'std::vector<std::byte>': 'struct vs_bytes', 'Base64Decoder': 'struct vs_decoder',
+TYPES = {'std::pair<std::string, std::string>': 'struct vs_spair', 'std::string': 'struct vs_str', 'std::vector<std::byte>': 'struct vs_bytes', 'Base64Decoder': 'struct vs_decoder',
          'std::string::const_iterator': 'const char *', 'std::string::iterator': 'char *',
          '__gnu_cxx::__normal_iterator<const char *, std::string>': 'const char *', '__gnu_cxx::__normal_iterator<char *, std::string>': 'char *',
          '__gnu_cxx::__normal_iterator<const char*, std::string>': 'const char *', '__gnu_cxx::__normal_iterator<char*, std::string>': 'char *',
@@ -121,6 +133,11 @@ STUBS = {
     'std::string::begin': 'vs_str_begin', 'std::string::end': 'vs_str_end',
     'std::string::push_back': 'vs_str_push_back',
     'std::string::find_first_of/1': 'vs_find_first_of', 'std::string::find_last_of/1': 'vs_find_last_of',
+    # other spellings of the search for one character, and a pair of strings as a result type (a refactoring into a helper)
+    'std::string::substr/2': 'vs_str_substr', 'std::string::substr/1': 'vs_str_substr1',
+    'std::string::find/1': 'vs_find_first_of', 'std::string::rfind/1': 'vs_find_last_of',
+    'field:std::pair<std::string, std::string>::first': '$.first', 'field:std::pair<std::string, std::string>::second': '$.second',
+    'ctor:std::pair<std::string, std::string>/2': {'expr': '((struct vs_spair){ ($0), ($1) })'}, 'ctor:std::pair<std::string, std::string>/0': {'expr': '((struct vs_spair){ { (char *)"", 0 }, { (char *)"", 0 } })'},
     'operator=|std::string,std::string': 'vs_str_assign',
     'operator+|std::string,std::string': 'vs_str_concat',
     # other spellings of building the credentials text
@@ -133,7 +150,7 @@ STUBS = {
     'operator!=|__gnu_cxx::__normal_iterator<const std::byte*, std::vector<std::byte>>,__gnu_cxx::__normal_iterator<const std::byte*, std::vector<std::byte>>': {'expr': '(($0) != ($1))'}, 'operator++|__gnu_cxx::__normal_iterator<const std::byte*, std::vector<std::byte>>': {'expr': '(++($0))'}, 'operator*|__gnu_cxx::__normal_iterator<const std::byte*, std::vector<std::byte>>': {'expr': '(*($0))'},
     'operator+|__gnu_cxx::__normal_iterator<char*, std::string>,long': {'expr': '(($0) + ($1))'}, 'operator+|__gnu_cxx::__normal_iterator<const char*, std::string>,long': {'expr': '(($0) + ($1))'},
 }
-THROWING = ['vs_decoder_decode']
+THROWING = ['vs_decoder_decode', 'vs_str_substr', 'vs_str_substr1']
 ALWAYS_REPLACE = []
 OPAQUE = ['Pistache::Http::Header::Header']
 RECORDS = ['Pistache::Http::Header::Authorization']
